@@ -905,7 +905,7 @@ func genJoin(g GenCtx, kind string, overrun bool) *Join {
 	svcName := func() string { return pick(rng, "svc1", "svc2", "svc3") }
 	refs := func() []string {
 		var r []string
-		for i := rng.Intn(3); i > 0; i-- {
+		for i := pickInt(rng, 0, 1, 2, 2, 3, 4); i > 0; i-- {
 			r = append(r, svcName())
 		}
 		return r
